@@ -1085,6 +1085,51 @@ class Inliner:
         ast.fix_missing_locations(fd)
         return fd
 
+    def _unroll_helper_comprehensions(self, fn: ast.AST, cls) -> None:
+        """`return [x for x in IT if self._new_pred(x)]`  ->  `_sv_compN = []; for x in IT: if self._new_pred(x): _sv_compN.append(x);
+        return _sv_compN` - only for list comprehensions (one generator) that call a *new* multi-statement helper, which cannot
+        be expanded inside an expression.  Comprehensions of the reference tree are left as they are."""
+        lists = []
+        for x in ast.walk(fn):
+            for fld in ("body", "orelse", "finalbody"):
+                sub = getattr(x, fld, None)
+                if isinstance(sub, list) and sub and isinstance(sub[0], ast.stmt):
+                    lists.append(sub)
+            if isinstance(x, ast.Try):
+                lists += [h.body for h in x.handlers]
+        for lst in lists:
+            i = 0
+            while i < len(lst):
+                st = lst[i]
+                i += 1
+                v = getattr(st, "value", None) if isinstance(st, (ast.Assign, ast.AnnAssign, ast.Return)) else None
+                if not (isinstance(v, ast.ListComp) and len(v.generators) == 1 and not v.generators[0].is_async):
+                    continue
+                gen = v.generators[0]
+                calls = [c for part in [v.elt] + list(gen.ifs) for c in ast.walk(part) if isinstance(c, ast.Call)]
+                hit = False
+                for c in calls:
+                    t = self._target(c, cls)
+                    if t is not None and not t[1].is_gen and self._single_expr(t[1]) is None:
+                        hit = True
+                if not hit:
+                    continue
+                self._comp_tmp = getattr(self, "_comp_tmp", 0) + 1
+                tmp = f"_sv_comp{self._comp_tmp}"
+                init = ast.Assign(targets=[ast.Name(id=tmp, ctx=ast.Store())], value=ast.List(elts=[], ctx=ast.Load()), type_comment=None)
+                app = ast.Expr(value=ast.Call(func=ast.Attribute(value=ast.Name(id=tmp, ctx=ast.Load()), attr="append", ctx=ast.Load()), args=[v.elt], keywords=[]))
+                body: List[ast.stmt] = [app]
+                for cond in reversed(gen.ifs):
+                    body = [ast.If(test=cond, body=body, orelse=[])]
+                loop = ast.For(target=gen.target, iter=gen.iter, body=body, orelse=[], type_comment=None)
+                st.value = ast.Name(id=tmp, ctx=ast.Load())
+                for x in (init, loop):
+                    ast.copy_location(x, st)
+                    ast.fix_missing_locations(x)
+                ast.fix_missing_locations(st)
+                lst[i - 1:i - 1] = [init, loop]
+                i += 2
+
     def _name_fresh_receivers(self, fn: ast.AST) -> None:
         """`return _Worker(a, b).run(c)`  ->  `_sv_objN = _Worker(a, b); return _sv_objN.run(c)` for new private classes:
         the instance gets a name, so that its methods can be expanded and its fields scalarised like any local's."""
@@ -1267,6 +1312,7 @@ class Inliner:
         for q, inf in list(self.funcs.items()):
             self._name_fresh_receivers(inf.node)
             self._type_names(inf.node)
+            self._unroll_helper_comprehensions(inf.node, inf.cls)
             inf.node.body = self._closure_convert(inf.node.body, inf.cls)
         for _ in range(max_rounds):
             before = len(self.done)
